@@ -147,6 +147,9 @@ impl<'a> Packet<'a> {
         let mut section_items = Vec::with_capacity(items_count as usize);
 
         for _ in 0..items_count {
+            #[cfg(simple_dns_verif)]
+            crate::dns::verif::step();
+
             section_items.push(T::parse(data, offset)?);
         }
 
